@@ -213,6 +213,7 @@ def main():
         changed, _, missing = extract_facts.regenerate(core.REPO, core.GENERATED)
         if changed:
             notes.append("Generated/Repo.lean changed: facts differ from the committed copy")
+        missing = identify_fnv_behaviourally(missing, notes)
         for name, why in missing.items():
             if fact_matters(pid, name):
                 broken.append({"kind": "tie-extract", "what": f"extract_facts could not find the fact {name} this property depends on: {why}"})
@@ -353,6 +354,49 @@ def main():
         print(l)
     print(f"{pid} {tier}: theorems={n_thm} traces={n_traces} lines={n_lines} search={search_stats.get('evaluations', 0)} wall={wall:.1f}s -> {'VIOLATION' if violations else 'ok'}")
     return 1 if violations else 0
+
+
+def identify_fnv_behaviourally(missing, notes):
+    """The FNV facts (offset basis, seed multiplier, prime, mask, masked start) that the translator could not
+    READ from hashes.py are identified by what the functions DO: if fnv_1a / fnv_1a_32 of the tree under check
+    agree with FNV-1a built from exactly the published constants — start (basis + 31·seed) mod 2^bits, then
+    xor, multiply, reduce mod 2^bits per unit — on a battery of keys and seeds (empty key, single units 0 and
+    255, longer keys, text; seeds 0, 1, around 2^bits/31, beyond 2^bits, negative), those five facts are what the
+    previous definitions say, and they are kept.  This is the second kind of tie (behaviour), used only when the
+    first (reading the source) gives no answer; any difference leaves the facts unread."""
+    fams = {"fnv64": ("fnv_1a", 0xCBF29CE484222325, 0x100000001B3, 64), "fnv32": ("fnv_1a_32", 0x811C9DC5, 0x01000193, 32)}
+    out = type(missing)(missing)
+    for fam, (fname, basis, prime, bits) in fams.items():
+        names = [n for n in missing if n.startswith(fam)]
+        if not names:
+            continue
+        try:
+            import importlib
+
+            H = importlib.import_module("probables.hashes")
+            fn = getattr(H, fname)
+            mod = 1 << bits
+            ok = True
+            keys = [b"", b"\x00", b"\xff", b"a", b"foobar", b"\x00\xff\x80\x7f" * 5, "", "a", "hello world", "~\x7f\x00"]
+            seeds = [0, 1, 2, 3, 31, mod // 31 - 1, mod // 31, mod // 31 + 1, mod - 1, mod, mod + 5, 2**80 + 12345, -1, -2, -(2**63), -(mod // 31) - 7]
+            for key in keys:
+                units = list(key) if isinstance(key, bytes) else [ord(c) for c in key]
+                for seed in seeds:
+                    h = (basis + 31 * seed) % mod
+                    for u in units:
+                        h = ((h ^ u) * prime) % mod
+                    if fn(key, seed) != h:
+                        ok = False
+                        break
+                if not ok:
+                    break
+        except Exception:  # noqa: BLE001
+            ok = False
+        if ok:
+            for n in names:
+                out.pop(n, None)
+            notes.append(f"{fam} constants could not be read from the source; identified by behaviour instead: {fname} agrees with FNV-1a built from the published constants on {len(keys) * len(seeds)} (key, seed) pairs, the previous definitions are kept")
+    return out
 
 
 def fact_matters(pid, fact):
